@@ -75,6 +75,35 @@ type (
 	}
 )
 
+// ... and the same held by value all the way down
+type (
+	eqV1 struct {
+		A int
+		N eqV2
+		B int
+	}
+	eqV2 struct {
+		A int
+		N eqV3
+		B int
+	}
+	eqV3 struct {
+		A int
+		N eqV4
+		B int
+	}
+	eqV4 struct {
+		A int
+		N eqV5
+		B int
+	}
+	eqV5 struct {
+		A int
+		N eqD6
+		B int
+	}
+)
+
 type eqBytes struct {
 	Arr [2]byte
 	Sl  []byte
@@ -141,6 +170,8 @@ func (n eqNode) build() any {
 		switch n.Kind {
 		case "struct":
 			return eqD1{v[0], eqD2{v[1], eqD3{v[2], &eqD4{v[3], eqD5{v[4], eqD6{v[5], v[6], n.Ss[0]}, v[7]}, v[8]}, v[9]}, v[10]}, v[11]}
+		case "struct-by-value":
+			return eqV1{v[0], eqV2{v[1], eqV3{v[2], eqV4{v[3], eqV5{v[4], eqD6{v[5], v[6], n.Ss[0]}, v[7]}, v[8]}, v[9]}, v[10]}, v[11]}
 		case "slice":
 			return [][][][][]int{{{{{v[0], v[1]}, {v[2]}}}, {{{v[3]}}}}, {{{{v[4], v[5]}}}}}
 		case "map":
@@ -457,7 +488,7 @@ func (n eqNode) mutants() []eqNode {
 			}
 		}
 	case "deep":
-		used := map[string]int{"struct": 12, "slice": 6, "map": 4, "mixed": 6}[n.Kind]
+		used := map[string]int{"struct": 12, "struct-by-value": 12, "slice": 6, "map": 4, "mixed": 6}[n.Kind]
 		for i := 0; i < used; i++ {
 			m := cloneNode(n)
 			m.Vs[i] += 3
@@ -648,8 +679,9 @@ func (n eqNode) mutants() []eqNode {
 		for i := 0; i+1 < len(n.Kids); i++ {
 			// IsEqual documents that it does not distinguish slices from arrays of equal content
 			// ... and that pointers are flattened at any depth (a *int 7 is the leaf value 7); which hollow
-			// (zero-valued) handle sits where is not a difference the statement speaks about
-			norm := strings.NewReplacer("ptr3depth4", "ptr3", "ptr3depth6", "ptr3", "array", "slice", "&", "", "pstruct", "struct", "alias:", "stack:", "*[3]byte", "bytes", "[3]byte", "bytes", "[]byte", "bytes", "zero-StackAlias", "zero", "zero-Stack", "zero", "zero-Condition", "zero")
+			// (zero-valued) handle sits where is not a difference the statement speaks about; structs are
+			// documented to be compared by exported fields, their order and values (not by type name)
+			norm := strings.NewReplacer("deep-struct-by-value", "deep-struct", "ptr3depth4", "ptr3", "ptr3depth6", "ptr3", "array", "slice", "&", "", "pstruct", "struct", "alias:", "stack:", "*[3]byte", "bytes", "[3]byte", "bytes", "[]byte", "bytes", "zero-StackAlias", "zero", "zero-Stack", "zero", "zero-Condition", "zero")
 			if norm.Replace(n.Kids[i].String()) != norm.Replace(n.Kids[i+1].String()) {
 				m5 := cloneNode(n)
 				m5.Kids[i], m5.Kids[i+1] = m5.Kids[i+1], m5.Kids[i]
@@ -686,6 +718,7 @@ func eqLeaves() []eqNode {
 		{T: "anymix", Kind: "map", Vs: []int{1, 2}, Ss: []string{"a"}}, {T: "anymix", Kind: "struct", Vs: []int{1, 2}, Ss: []string{"a"}}, {T: "anymix", Kind: "arr", Vs: []int{1, 2}, Ss: []string{"a"}},
 		{T: "anymix", Kind: "nested", Vs: []int{1, 2}, Ss: []string{"a"}},
 		{T: "deep", Kind: "struct", Vs: []int{1, 2, 3, 4, 5, 6, 7, 8, 9, 10, 11, 12}, Ss: []string{"z"}}, {T: "deep", Kind: "slice", Vs: []int{1, 2, 3, 4, 5, 6}, Ss: []string{"-"}},
+		{T: "deep", Kind: "struct-by-value", Vs: []int{1, 2, 3, 4, 5, 6, 7, 8, 9, 10, 11, 12}, Ss: []string{"z"}},
 		{T: "deep", Kind: "map", Vs: []int{1, 2, 3, 4}, Ss: []string{"a"}}, {T: "deep", Kind: "mixed", Vs: []int{1, 2, 3, 4, 5, 6}, Ss: []string{"k"}},
 		{T: "barr", Kind: "[3]byte", Vs: []int{1, 2, 3}}, {T: "barr", Kind: "[]byte", Vs: []int{1, 2, 3}}, {T: "barr", Kind: "*[3]byte", Vs: []int{1, 2, 3}},
 		{T: "barr", Kind: "[2]uint16", Vs: []int{1, 2}}, {T: "barr", Kind: "[2]bool", Vs: []int{1, 2}}, {T: "barr", Kind: "struct{[2]byte}", Vs: []int{1, 2, 4}},
